@@ -93,6 +93,36 @@ theorem joinSlash_root (l : List Str) : joinSlash ([] :: l) = flat l := by
   | nil => simp [joinSlash, flat]
   | cons a t => rw [joinSlash_cons_cons, flat_eq_joinSlash _ (by simp)]; simp
 
+theorem splitSlash_noSlash_self (s : Str) (h : NoSlash s) : splitSlash s = [s] := by
+  induction s with
+  | nil => rfl
+  | cons c cs ih =>
+    have hc : c ≠ '/' := by intro h'; apply h; simp [h']
+    have hcs : NoSlash cs := by intro h'; apply h; simp [h']
+    simp [splitSlash, hc, ih hcs, consHead]
+
+theorem splitSlash_append_slash (s : Str) (h : NoSlash s) (r : Str) :
+    splitSlash (s ++ '/' :: r) = s :: splitSlash r := by
+  induction s with
+  | nil => simp [splitSlash]
+  | cons c cs ih =>
+    have hc : c ≠ '/' := by intro h'; apply h; simp [h']
+    have hcs : NoSlash cs := by intro h'; apply h; simp [h']
+    simp [splitSlash, hc, ih hcs, consHead]
+
+/-- `'/'.join(parts).split('/') == parts` for a non-empty list of slash-free segments:
+    re-parsing a rendered path gives the same `path_parts` -/
+theorem splitSlash_joinSlash (segs : List Str) (hne : segs ≠ []) (h : ∀ s ∈ segs, NoSlash s) :
+    splitSlash (joinSlash segs) = segs := by
+  induction segs with
+  | nil => exact absurd rfl hne
+  | cons a t ih =>
+    cases t with
+    | nil => simpa [joinSlash] using splitSlash_noSlash_self a (h a (by simp))
+    | cons b t' =>
+      rw [joinSlash_cons_cons, splitSlash_append_slash a (h a (by simp)),
+        ih (by simp) (fun s hs => h s (by simp [hs]))]
+
 /-! ### takeWhile / dropWhile over slash-free segments -/
 
 theorem takeWhile_noslash (s r : Str) (h : NoSlash s) :
